@@ -41,7 +41,8 @@ ALL_INV = ["TypeOK", "LevelGoverns", "FreshAfterReset", "Ownership", "HandlerSee
 NEGATIVE = [
     ("fastPathDisabled", "HandlerSeesOwn"),   # run with the middleware level disabled
     ("cachedEnabled", "LevelGoverns"),        # run with the level disabled at construction and SetLevel afterwards
-    ("hijackByAssertion", "ClientExact"),     # run with foreign Unwrap-only wrappers before the middleware
+    ("hijackByAssertion", "ClientExact"),
+    ("readFromDropsEOFChunk", "ClientExact"), # a ReadFrom on the recorder that loses a chunk delivered together with EOF     # run with foreign Unwrap-only wrappers before the middleware
     ("urlRequestURI", "LoggerOwn"),           # request_uri rebuilt from the parsed URL (absolute / authority form)
     ("stickyHijack", "FreshAfterReset"),      # a hijacked flag that Reset does not clear
     ("cloneRequest", "HandlerSeesOwn"),       # deep copy: the Trailer map is no longer the client's
@@ -75,7 +76,7 @@ GATES_COARSE = '{"hpre", "readcode"}'
 
 
 def _consts(procs, init, retain=True, policy="any", variant="asWritten", keep=True, maxobj=None, gates=None,
-            pols=None, mwon=True, forms="FormsOAU", ups="UpNone", toggles=0):
+            pols=None, mwon=True, forms="FormsOAU", ups="UpNone", toggles=0, clients="ClientsPlain"):
     c = {"Procs": "{%s}" % ", ".join(str(i) for i in range(1, procs + 1)),
          "InitOps": "<- " + init if init else "{}",
          "MaxObj": maxobj or procs,
@@ -85,6 +86,7 @@ def _consts(procs, init, retain=True, policy="any", variant="asWritten", keep=Tr
          "PolW": '"%s"' % (pols or [policy] * 3)[2],
          "FormOf": "<- " + forms,
          "UpOf": "<- " + ups,
+         "ClientOf": "<- " + clients,
          "MaxToggles": toggles,
          "MwEnabled": "TRUE" if mwon else "FALSE",
          "Variant": '"%s"' % variant,
@@ -191,12 +193,16 @@ def _run(ctx):
         cfg = "MwChainNeg_%s.cfg" % variant
         write_cfg(d / cfg, "Spec", dict(chain_c, MaxN=3, Rounds=2, Variant='"%s"' % variant), invariants=[inv])
         jobs.add("chain-neg-" + variant, tlc("MwChain", cfg, "chain-neg:" + variant, expect_ok=False, workers=2))
-    write_cfg(d / "CodeRecMC_run.cfg", "Spec", {"MaxSteps": 6, "Codes": CODES_Q, "Variant": '"asWritten"'},
-              invariants=["FreshAfterReset", "HijackReaches", "CodeOK", "LastWins"])
-    write_cfg(d / "CodeRecNeg2_run.cfg", "Spec", {"MaxSteps": 3, "Codes": "{200}", "Variant": '"hijackByAssertion"'},
+    write_cfg(d / "CodeRecMC_run.cfg", "Spec", {"MaxSteps": 6, "Codes": CODES_Q, "CopyKinds": "{2, 4, 6}", "Variant": '"asWritten"'},
+              invariants=["FreshAfterReset", "HijackReaches", "UnderExact", "CodeOK", "LastWins"])
+    write_cfg(d / "CodeRecNeg3_run.cfg", "Spec",
+              {"MaxSteps": 3, "Codes": "{200}", "CopyKinds": "{2}", "Variant": '"readFromDropsEOFChunk"'}, invariants=["UnderExact"])
+    jobs.add("coderec-neg3", tlc("CodeRec", "CodeRecNeg3_run.cfg", "coderec-neg:readFromDropsEOFChunk", expect_ok=False, workers=2))
+    write_cfg(d / "CodeRecNeg2_run.cfg", "Spec",
+              {"MaxSteps": 3, "Codes": "{200}", "CopyKinds": "{2}", "Variant": '"hijackByAssertion"'},
               invariants=["HijackReaches"])
     jobs.add("coderec-neg2", tlc("CodeRec", "CodeRecNeg2_run.cfg", "coderec-neg:hijackByAssertion", expect_ok=False, workers=2))
-    write_cfg(d / "CodeRecNeg_run.cfg", "Spec", {"MaxSteps": 4, "Codes": "{200}", "Variant": '"stickyHijack"'},
+    write_cfg(d / "CodeRecNeg_run.cfg", "Spec", {"MaxSteps": 4, "Codes": "{200}", "CopyKinds": "{2}", "Variant": '"stickyHijack"'},
               invariants=["FreshAfterReset"])
     jobs.add("coderec-neg", tlc("CodeRec", "CodeRecNeg_run.cfg", "coderec-neg:stickyHijack", expect_ok=False, workers=2))
     if not q:  # quick: the generator run below checks the same invariants to depth 5
@@ -214,6 +220,11 @@ def _run(ctx):
     jobs.add("logmw-mc2-hijack", tlc("LogMwMC", "LogMwMC2_hijack.cfg",
                                      "logmw-mc: 2 requests, Hijack / Flush / deadline / full-duplex behaviours behind foreign "
                                      "writer wrappers (Unwrap-only, Flush-forwarding)"))
+    write_cfg(d / "LogMwMC2_stream.cfg", "Spec",
+              _consts(2, "MCStreamQ" if q else "MCStream", clients="ClientsPRS", ups="UpUUN"), invariants=ALL_INV, view="View")
+    jobs.add("logmw-mc2-stream", tlc("LogMwMC", "LogMwMC2_stream.cfg",
+                                     "logmw-mc: 2 requests, writes through std-lib helpers (io.Copy source kinds, WriteString, "
+                                     "Fprintf, ServeContent) over plain / ReaderFrom / StringWriter client writers"))
     # the logger's level as mutable environment state: SetLevel between construction and requests and between requests
     write_cfg(d / "LogMwMC2_level.cfg", "Spec", _consts(2, "MCNeg" if q else "MCAll", mwon=False, toggles=2),
               invariants=ALL_INV, view="View")
@@ -261,7 +272,9 @@ def _run(ctx):
     for variant, inv in NEGATIVE:
         cfg = "LogMwNeg_%s.cfg" % variant
         write_cfg(d / cfg, "Spec",
-                  _consts(2, "MCHijack" if variant in ("stickyHijack", "hijackByAssertion") else "MCNeg", variant=variant,
+                  _consts(2, "MCStreamQ" if variant == "readFromDropsEOFChunk" else
+                          "MCHijack" if variant in ("stickyHijack", "hijackByAssertion") else "MCNeg", variant=variant,
+                          clients="ClientsPRS" if variant == "readFromDropsEOFChunk" else "ClientsPlain",
                           mwon=variant not in ("fastPathDisabled", "cachedEnabled"),
                           toggles=2 if variant == "cachedEnabled" else 0,
                           ups="UpUFO" if variant == "hijackByAssertion" else "UpNone"),
@@ -269,8 +282,9 @@ def _run(ctx):
         jobs.add("neg-" + variant, tlc("LogMwMC", cfg, "logmw-neg:" + variant, expect_ok=False, workers=2))
 
     # ---- 2. generators
-    write_cfg(d / "CodeRecGen_run.cfg", "GSpec", {"MaxSteps": 5, "Codes": CODES_Q if q else CODES_T, "Variant": '"asWritten"'},
-              invariants=["Emit", "FreshAfterReset", "HijackReaches", "CodeOK", "LastWins"])
+    write_cfg(d / "CodeRecGen_run.cfg", "GSpec", {"MaxSteps": 4 if q else 5, "Codes": CODES_Q if q else "{101, 200, 404}",
+               "CopyKinds": "{2, 4, 6}" if q else "{1, 2, 4, 5, 6, 7}", "Variant": '"asWritten"'},
+              invariants=["Emit", "FreshAfterReset", "HijackReaches", "UnderExact", "CodeOK", "LastWins"])
     jobs.add("coderec-gen", tlc("CodeRecGen", "CodeRecGen_run.cfg", "coderec-gen"))
 
     # Schedule generators write to one file each (separate scratch copies of the module: the file name is fixed
@@ -280,7 +294,7 @@ def _run(ctx):
     sched_files = []
 
     def sched_gen(tag, procs, init, gates, simulate=None, depth=None, retain=True, mwon=True, forms="FormsOAU",
-                  ups="UpNone", toggles=0):
+                  ups="UpNone", toggles=0, clients="ClientsPlain"):
         mod = "LogMwGen_" + tag
         out = "logmw_sched_%s.ndjson" % tag
         src = (d / "LogMwGen.tla").read_text()
@@ -288,7 +302,7 @@ def _run(ctx):
         (d / (mod + ".tla")).write_text(src)
         cfg = mod + ".cfg"
         write_cfg(d / cfg, "GSpec", _consts(procs, init, retain=retain, policy="min", gates=gates, mwon=mwon, forms=forms, ups=ups,
-                                                toggles=toggles),
+                                                toggles=toggles, clients=clients),
                   invariants=gen_inv)
         sched_files.append((tag, d / out, simulate is None))
         if simulate is None:
@@ -299,6 +313,8 @@ def _run(ctx):
     sched_gen("life2", 2, "GenAll", GATES_LIFE, forms="FormsOAU")
     sched_gen("pool2", 2, "GenSome" if q else "GenAll", GATES_POOL, retain=False, forms="FormsUEO")
     sched_gen("hijack2", 2, "GenHijack", GATES_COARSE if q else '{"hpre", "cw", "readcode"}', forms="FormsAUS", ups="UpUFO")
+    sched_gen("stream2", 2, "GenStream", GATES_COARSE if q else '{"hpre", "cw", "readcode"}', forms="FormsEOA", ups="UpUUN",
+              clients="ClientsPRS")
     sched_gen("level2", 2, "GenNeg" if q else "GenSome", GATES_COARSE if q else GATES_LIFE, mwon=False, toggles=2)
     sched_gen("classes2", 2, "GenClasses", GATES_COARSE if q else GATES_LIFE, forms="FormsSAE")
     sched_gen("off2", 2, "GenSome", '{"withattrs", "hpre", "readcode"}' if q else '{"withattrs", "hpre", "hpost", "readcode"}',
@@ -310,7 +326,8 @@ def _run(ctx):
               invariants=["Emit"] + COMPOSE_INV)
     sched_files.append(("compose", d / "logmw_sched_compose.ndjson", True))
     jobs.add("gen-compose", tlc("LogMwComposeGen", "LogMwComposeGen_run.cfg", "sched-gen:compose", timeout=1500))
-    sched_gen("fine2", 2, "GenEvery", GATES_ALL, simulate=2000 if q else 20000, forms="FormsEOA", ups="UpUUN")
+    sched_gen("fine2", 2, "GenEvery", GATES_ALL, simulate=2000 if q else 20000, forms="FormsEOA", ups="UpUUN",
+              clients="ClientsRSP")
     if q:
         sched_gen("coarse3", 3, "GenSome", GATES_COARSE, simulate=1500, forms="FormsAUS")
     else:
@@ -342,6 +359,9 @@ def _run(ctx):
     if res["coderec-neg2"].violated != "HijackReaches":
         raise CheckerError("CodeRec design mutation hijackByAssertion does not violate HijackReaches")
     neg_ok.append("CodeRec/hijackByAssertion -> HijackReaches")
+    if res["coderec-neg3"].violated != "UnderExact":
+        raise CheckerError("CodeRec design mutation readFromDropsEOFChunk does not violate UnderExact")
+    neg_ok.append("CodeRec/readFromDropsEOFChunk -> UnderExact")
     for inv in ("PoolPurity", "ClientExact"):
         r = res["compose-neg-" + inv]
         if r.violated != inv:
